@@ -217,6 +217,11 @@ def run(project, chk):
                     for a in n.args:
                         if is_set_expr(sc, a, set_names):
                             chk.fail("P5", fi.short, norm_text(n), project.loc(m, n), "order of a set is observed: depends on the hash seed of the interpreter process")
+                if qc in ("builtins.min", "builtins.max", "builtins.sorted") and any(k.arg == "key" for k in n.keywords):
+                    # with a key function, ties are broken by the order in which the elements are produced
+                    for a in n.args:
+                        if is_set_expr(sc, a, set_names):
+                            chk.fail("P5", fi.short, norm_text(n), project.loc(m, n), f"{qc.split('.')[1]}(<set>, key=...): elements with equal keys are taken in the set's iteration order, which depends on the hash seed of the interpreter process")
                 if isinstance(n.func, ast.Attribute) and n.func.attr == "pop" and not n.args and is_set_expr(sc, n.func.value, set_names):
                     chk.fail("P5", fi.short, norm_text(n), project.loc(m, n), "set.pop(): which element comes out depends on the hash seed")
             iters = []
@@ -284,7 +289,12 @@ def run(project, chk):
     for node, name, d in car:
         chk.fail("P8", bulk.short, norm_text(d.ast if d.kind != "bind" else d.ast.target), project.loc(bulk.module, d.ast),
                  f"{name} defined at line {d.lineno} while processing one entry is read at line {node.lineno} while processing a later one: the result depends on the entry's position in the list")
-    if not car:
+    from checks._loops import leaked_definitions
+    leak = leaked_definitions(bulk) or []
+    for node, name, d in leak:
+        chk.fail("P8", bulk.short, f"{name} read after the entry loop", project.loc(bulk.module, node.ast if node.ast is not None else bulk.node),
+                 f"{name}, assigned per entry at line {d.lineno}, is read at line {node.lineno} after the entry loop has finished: there it holds the last entry's value, so an entry's result depends on which entry comes last")
+    if not car and not leak:
         chk.ok("P8", f"{project.loc(bulk.module, bulk.node)} {bulk.short}", "no definition made for one entry reaches a read for a later entry", "reaching definitions tagged across the back edge of the entry loop")
     # mutable default table of process_nodes_recursive must be the None-sentinel idiom
     chk.floor("functions analysed", len(chk.analysed["functions"]), 60)
